@@ -5,6 +5,7 @@ import StepModel.P21.ReaderLemmas19
 import StepModel.P21.ReaderLemmas20
 import StepModel.P21.ReaderLemmas21
 import StepModel.P21.ReaderLemmas22
+import StepModel.P21.ReaderLemmas23
 import StepModel.Generated.P21RWGen
 /-! # C03 — the reader never reports a violating file as clean: property theorems
 
@@ -1832,6 +1833,162 @@ theorem C03_confined_every_record_shape_partial {F} (ops : FloatOps F) (lex : Le
     · exact Int.lt_of_le_of_lt (greater_le_left _ _) (hbad _)
     · exact hbad _
 
+/-! ### … and externally mapped records with a violation inside a part -/
+
+/-- pass 1 on a record of `FileRecOK`: created or skipped -/
+theorem fileRec_item1 {F} (ops : FloatOps F) (lex : LexCfg) (cfg : RWCfg) (d : Dict) (strict : Bool)
+    (hskip : cfg.skipInstanceSkipsComments = true) (lk : Lookup) (y : FileRec F)
+    (h : FileRecOK { ops := ops, lex := lex, cfg := cfg, dict := d, lookup := lk } strict y) :
+    if (y.item d).2 then Item1OK cfg d (y.item d).1 else ItemSkip1 cfg d (y.item d).1 := by
+  cases y with
+  | kept y =>
+    simp only [FileRec.item, if_true]
+    exact anyStep_item1 ops lex cfg d strict hskip _ y h
+  | unknown x =>
+    simp only [FileRec.item, Bool.false_eq_true, if_false]
+    obtain ⟨hlex, hg, hscan, hunk⟩ := h
+    refine ⟨hg, ?_⟩
+    intro m hnone l rest
+    obtain ⟨l', h⟩ := createInstance_unknown cfg hskip d m x.r hlex hscan hnone hunk l rest
+    exact ⟨l', by show createInstance cfg d m (G l (x.r.text [] ++ rest) false) = _; rw [text_nil_append]; exact h⟩
+  | noeq r g =>
+    simp only [FileRec.item, Bool.false_eq_true, if_false]
+    obtain ⟨hlex, hg, hscan⟩ := h
+    refine ⟨hg, ?_⟩
+    intro m hnone l rest
+    obtain ⟨l', h⟩ := createInstance_noeq cfg hskip d m r hlex hscan hnone l rest
+    exact ⟨l', by show createInstance cfg d m (G l (r.textNoEq [] ++ rest) false) = _; rw [textNoEq_nil_append]; exact h⟩
+/-- pass 2 on a record of `FileRecOK`: read or skipped -/
+theorem fileRec_item2 {F} (ops : FloatOps F) (lex : LexCfg) (cfg : RWCfg) (d : Dict) (strict : Bool)
+    (hskip : cfg.skipInstanceSkipsComments = true) (hrs : cfg.errorResyncsFromStart = true)
+    (hrep : cfg.complexReportsError = true) (lk : Lookup) (y : FileRec F)
+    (h : FileRecOK { ops := ops, lex := lex, cfg := cfg, dict := d, lookup := lk } strict y) :
+    if (y.item d).2 then Item2OKF ops lex cfg d strict lk (y.item d).1 else ItemSkip2 ops lex cfg d strict (y.item d).1 := by
+  cases y with
+  | kept y =>
+    simp only [FileRec.item, if_true]
+    exact anyStep_item2 ops lex cfg d strict hskip hrs hrep _ y h
+  | unknown x =>
+    simp only [FileRec.item, Bool.false_eq_true, if_false]
+    obtain ⟨hlex, hg, hscan, _⟩ := h
+    refine ⟨hg, ?_⟩
+    intro st l rest hnf hs
+    have hs' : st.s = G l (x.r.text rest) false := by rw [← text_nil_append]; exact hs
+    exact readInstance_notfound ops lex cfg d strict hskip st x.r hlex hscan l rest hs' hnf
+  | noeq r g =>
+    simp only [FileRec.item, Bool.false_eq_true, if_false]
+    obtain ⟨hlex, hg, hscan⟩ := h
+    refine ⟨hg, ?_⟩
+    intro st l rest hnf hs
+    have hs' : st.s = G l (r.textNoEq rest) false := by rw [← textNoEq_nil_append]; exact hs
+    exact readInstance_noeq ops lex cfg d strict hskip st r hlex hscan l rest hs' hnf
+/-- a part whose parameters are read where they stand with known severities (`ParamRd`: conforming values by
+    `C01.covered_rd`, violating ones by the `C03_*_detected` theorems) is read by `STEPcomplex::STEPread`'s call of
+    `SDAI_Application_instance::STEPread` with the accumulated severity -/
+theorem cpartRdS_of_params {F} (env : Env F) (strict : Bool) (n0 : Byte) (ns sA sB : List Byte) (hn0 : isAlpha n0 = true)
+    (hns : ns.all kwc = true) (hsA : sA.all isSpace = true) (hsB : sB.all isSpace = true) (ed : EntityD)
+    (hent : env.dict.entity? (bytesToString (upperBytes (n0 :: ns))) = some ed)
+    (qs : List (Param F × Sev)) (hne : qs ≠ []) (hattrs : ed.ownAttrs = qs.map (·.1.a))
+    (hrd : ∀ q ∈ qs, ParamRd env strict q.1 q.2) :
+    CPartRdS env strict { n0 := n0, ns := ns, sA := sA, body := renderParams (qs.map (·.1)), sB := sB, vals := qs.map (·.1.v) }
+      (accum .null (qs.map (·.2))) (aaccum qs) := by
+  refine ⟨hn0, hns, hsA, hsB, ed, hent, ?_⟩
+  intro l sk rest
+  rw [hattrs]
+  exact instSTEPread_params_sev env strict qs hne hrd l sk rest
+
+/-- a record of a data section: one of `FileRec`, or an externally mapped record whose parts are read with the
+    severities `sv` (a violation inside a part) -/
+inductive FileRecV (F : Type) where
+  | base (y : FileRec F)
+  | cxbad (r : CRec F) (g : List Byte) (sv : CPart F → Sev × Sev)
+
+/-- the severity an externally mapped record is read with: the merge `STEPcomplex::STEPread` makes of its parts' -/
+def cxRecSev {F} (cfg : RWCfg) (d : Dict) (r : CRec F) (sv : CPart F → Sev × Sev) : Sev :=
+  cxSev cfg (match (mkCInst d r : MInst F).parts with | p :: _ => p.name | [] => "") sv r.parts
+
+def FileRecV.item {F} (cfg : RWCfg) (d : Dict) : FileRecV F → Item F × Bool
+  | .base y => y.item d
+  | .cxbad r g sv =>
+    ({ body := r.text [], g := g, id := r.id, mkI := mkCInst d r,
+       out := { mkCInst d r with parts := r.parts.foldl (fun ps c => setPart ps c.name c.vals) (mkCInst d r).parts,
+                                 state := stateOf (cxRecSev cfg d r sv) },
+       sev := cxRecSev cfg d r sv }, true)
+
+def FileRecVOK {F} (env : Env F) (strict : Bool) : FileRecV F → Prop
+  | .base y => FileRecOK env strict y
+  | .cxbad r g sv => r.Lex ∧ Seps g ∧
+      env.dict.complexSets.contains (sortNames ((r.parts.map (·.name)).filter (fun n => (env.dict.entity? n).isSome))) = true ∧
+      (∀ c ∈ r.parts, (env.dict.entity? c.name).isSome = true) ∧
+      ∀ c ∈ r.parts, CPartRdS env (env.cfg.complexPartStrict.getD strict) c (sv c).1 (sv c).2
+
+/-- **a violation inside an externally mapped record, up to the file verdict** (`_partial`):
+    `C03_confined_every_record_shape_partial` with one more record shape - an externally mapped record
+    `#id = ( PART(…) PART(…) … );` (known parts, legal combination) every part of which is read where it stands with a
+    known severity (`CPartRdS`; from the parameters' `ParamRd` facts by `cpartRdS_of_params`).  Its instance keeps every
+    part's values, its severity is the merge `STEPcomplex::STEPread` makes (`cxSev`: the head part's result, merged - in
+    the source as repaired by C15-7/8 - with what the other parts report), `ReadInstance` resynchronises from the record's
+    start when that is WARNING or worse and leaves the stream behind the record's `;` either way; so every other record,
+    of whatever shape, is read to the outcome it has on its own, the severity is reported in file order, and a severity
+    worse than a user message makes p21read exit with 1. -/
+theorem C03_violation_inside_complex_record_confined_partial {F} (ops : FloatOps F) (lex : LexCfg) (cfg : RWCfg) (d : Dict)
+    (strict : Bool) (hskip : cfg.skipInstanceSkipsComments = true) (hrs : cfg.errorResyncsFromStart = true)
+    (hrep : cfg.complexReportsError = true)
+    (ys : List (FileRecV F)) (g0 sp gE after : List Byte) (hg0 : Seps g0) (hsp : sp.all isSpace = true) (hgE : Seps gE)
+    (hnd : (ys.map (fun y => (y.item cfg d).1.id)).Nodup)
+    (hok : ∀ y ∈ ys, FileRecVOK { ops := ops, lex := lex, cfg := cfg, dict := d,
+                                  lookup := Mgr.lookup d ({ insts := (keptI (ys.map (FileRecV.item cfg d))).map (·.mkI) } : Mgr F) } strict y) :
+    ∃ res, readDataSection ops lex cfg d strict false
+        (g0 ++ renderItems ((ys.map (FileRecV.item cfg d)).map (·.1)) (endsec sp (gE ++ (endIso ++ 59 :: after)))) = .ok res ∧
+      res.mgr.insts = (keptI (ys.map (FileRecV.item cfg d))).map (·.out) ∧
+      res.reported = ((keptI (ys.map (FileRecV.item cfg d))).map (·.sev)).reverse ∧
+      res.created = (keptI (ys.map (FileRecV.item cfg d))).length ∧ res.notCreated = nskipI (ys.map (FileRecV.item cfg d)) ∧
+      res.valid = (keptI (ys.map (FileRecV.item cfg d))).length ∧ res.invalid = nskipI (ys.map (FileRecV.item cfg d)) ∧
+      (0 < nskipI (ys.map (FileRecV.item cfg d)) → exitStatus res.sev = 1) ∧
+      ((∃ x ∈ keptI (ys.map (FileRecV.item cfg d)), x.sev.toInt < Sev.usermsg.toInt) → exitStatus res.sev = 1) := by
+  obtain ⟨res, hr, hm, hsev, hc, hnc, hv, hinv, hrp⟩ :=
+    readDataSection_itemsX ops lex cfg d strict sp _ hsp (tailOK_endIso gE hgE after) (ys.map (FileRecV.item cfg d)) g0 hg0
+      (by simpa [List.map_map, Function.comp_def] using hnd)
+      (by
+        intro z hz
+        obtain ⟨y, hy, rfl⟩ := List.mem_map.mp hz
+        cases y with
+        | base y => exact fileRec_item1 ops lex cfg d strict hskip _ y (hok _ hy)
+        | cxbad r g sv =>
+          simp only [FileRecV.item, if_true]
+          obtain ⟨hl, hg, hlegal, _, _⟩ := hok _ hy
+          refine ⟨hg, rfl, ?_⟩
+          intro m hnone l c k hc h47 h92
+          obtain ⟨l', h⟩ := createInstance_crec cfg hskip d m r hl hnone hlegal l g hg c k hc h47 h92
+          refine ⟨l', ?_⟩
+          show createInstance cfg d m (G l (r.text [] ++ (g ++ c :: k)) false) = _
+          rw [ctext_nil_append]
+          exact h)
+      (by
+        intro z hz
+        obtain ⟨y, hy, rfl⟩ := List.mem_map.mp hz
+        cases y with
+        | base y => exact fileRec_item2 ops lex cfg d strict hskip hrs hrep _ y (hok _ hy)
+        | cxbad r g sv =>
+          simp only [FileRecV.item, if_true]
+          obtain ⟨hl, hg, hlegal, hknown, hparts⟩ := hok _ hy
+          refine ⟨hg, rfl, rfl, ?_, ?_⟩
+          · simp only [keyOf, setParts_names]
+          · intro st l rest hfind hlk hs
+            have hs' : st.s = G l (r.text rest) false := by rw [← ctext_nil_append]; exact hs
+            exact readInstance_crec_sev ops lex cfg d strict st hrep hrs hskip r hl l rest hs' (mkCInst d r) hfind rfl rfl sv
+              (fun c hc => by rw [hlk]; exact hparts c hc) (mkCInst_names d r hknown))
+  refine ⟨res, hr, hm, hrp, hc, hnc, hv, hinv, ?_, ?_⟩
+  · intro hpos
+    rw [C03_exit_iff_worse_than_usermsg, hsev, if_pos hpos]
+    exact Int.lt_of_le_of_lt (greater_le_right _ _) (by decide)
+  · rintro ⟨x, hx, hb⟩
+    rw [C03_exit_iff_worse_than_usermsg, hsev]
+    have hbad := errAfterI_bad (keptI (ys.map (FileRecV.item cfg d))) x hx hb
+    split
+    · exact Int.lt_of_le_of_lt (greater_le_left _ _) (hbad _)
+    · exact hbad _
+
 /-- **a violation inside a typed select value**: `KEYWORD blanks ( blanks value )` for a select attribute where the keyword
     names a non-entity member and the value between the parentheses is read with WARNING (`LeafRdS`, e.g.
     `LeafRdS.integer_junk`: `CNT_T('a')`): the attribute reader returns WARNING with the member chosen and the value unset,
@@ -2227,6 +2384,80 @@ theorem C03_confined_every_record_shape_witness :
         subst hq
         exact ⟨(Passes.plain 53 (by decide)).toS, sepsNil, sepsNil⟩)
   exact ⟨res, hr, hm, hrep, hc, hnc, hinv, hex (by decide)⟩
+
+/-- `#1=(A(X)B(7));⏎#2=A(5);⏎` - an externally mapped record with a wrong-kind value inside its part `A`, before a conforming
+    record: `C03_violation_inside_complex_record_confined_partial` applies; the complex instance keeps `B`'s value and is
+    incomplete, WARNING is reported for it, the second record is complete, exit 1 -/
+def mvPX : Param Nat := { a := wAttrX, v := .one (.atom .unset), tok := [88], before := [], after := [] }
+def mvPartA : CPart Nat :=
+  { n0 := 65, ns := [], sA := [], body := renderParams ([(mvPX, Sev.warning)].map (·.1)), sB := [],
+    vals := [(mvPX, Sev.warning)].map (·.1.v) }
+def mvPartB : CPart Nat :=
+  { n0 := 66, ns := [], sA := [], body := renderParams ([(mxP7, Sev.null)].map (·.1)), sB := [], vals := [(mxP7, Sev.null)].map (·.1.v) }
+def mvCRec : CRec Nat := { ds := [49], s1 := [], s2 := [], parts := [mvPartA, mvPartB], s4 := [] }
+def mvSv (c : CPart Nat) : Sev × Sev := if c.n0 == 65 then (.warning, .warning) else (.null, .null)
+def mvFile : List (FileRecV Nat) := [.cxbad mvCRec [10] mvSv, .base (.kept (.simple wGood))]
+
+theorem C03_violation_inside_complex_record_witness :
+    ∃ res, readDataSection dblOps Generated.rwLexCfg Generated.rwCfg mxDict false false
+        ([10] ++ renderItems ((mvFile.map (FileRecV.item Generated.rwCfg mxDict)).map (·.1))
+          (endsec [] ([10] ++ (endIso ++ 59 :: [10])))) = .ok res ∧
+      res.reported = [Sev.null, Sev.warning] ∧ res.created = 2 ∧ res.mgr.insts.map (·.state) = [.incomplete, .complete] ∧
+      exitStatus res.sev = 1 := by
+  have sepsNil : Seps ([] : List Byte) := Seps.blanks [] (by decide)
+  have sepsNl : Seps ([10] : List Byte) := Seps.blanks [10] (by decide)
+  have hlexG : wGood.r.Lex := ⟨by decide, by decide, by decide, sepsNil, sepsNil, sepsNil, sepsNil, by decide, by decide, by decide⟩
+  have hscanG : ∀ q ∈ wGood.r.ps, ParamScan q := by
+    intro q hq
+    simp only [wGood, List.mem_singleton] at hq
+    subst hq
+    exact ⟨(Passes.plain 53 (by decide)).toS, sepsNil, sepsNil⟩
+  have hentA : mxDict.entity? "A" = some { name := "A", attrs := [wAttrX], ancestors := ["A"] } := by decide
+  have hentB : mxDict.entity? "B" = some { name := "B", attrs := [wAttrY], ancestors := ["B"] } := by decide
+  obtain ⟨res, hr, hm, hrep, hc, _, _, _, _, hex⟩ := C03_violation_inside_complex_record_confined_partial dblOps
+    Generated.rwLexCfg Generated.rwCfg mxDict false (by decide) (by decide) (by decide) mvFile [10] [] [10] [10]
+    sepsNl (by decide) sepsNl (by decide)
+    (by
+      intro y hy
+      simp only [mvFile, List.mem_cons, List.not_mem_nil, or_false] at hy
+      rcases hy with rfl | rfl
+      · refine ⟨⟨by decide, by decide, by decide, sepsNil, sepsNil, sepsNil, List.cons_ne_nil _ _, ?_⟩, sepsNl, by decide, ?_, ?_⟩
+        · intro c hc
+          simp only [mvCRec, List.mem_cons, List.not_mem_nil, or_false] at hc
+          rcases hc with rfl | rfl
+          · exact ⟨by decide, by decide, by decide, by decide, [88], rfl, Bal.plain 88 [] (by decide) (by decide) (by decide) Bal.nil⟩
+          · exact ⟨by decide, by decide, by decide, by decide, [55], rfl, Bal.plain 55 [] (by decide) (by decide) (by decide) Bal.nil⟩
+        · intro c hc
+          simp only [mvCRec, List.mem_cons, List.not_mem_nil, or_false] at hc
+          rcases hc with rfl | rfl <;> decide
+        · intro c hc
+          simp only [mvCRec, List.mem_cons, List.not_mem_nil, or_false] at hc
+          rcases hc with rfl | rfl
+          · exact cpartRdS_of_params _ _ 65 [] [] [] (by decide) (by decide) (by decide) (by decide) _ hentA
+              [(mvPX, Sev.warning)] (List.cons_ne_nil _ _) rfl (by
+                intro q hq
+                simp only [List.mem_singleton] at hq
+                subst hq
+                exact C03_wrong_kind_for_integer_detected _ _ wAttrX rfl rfl rfl 88 [] (by decide) (by decide) (by decide) (by decide)
+                  (by decide) (by decide) (by decide) (by decide) (by intro _ b hb; simp only [List.mem_singleton] at hb; subst hb; decide)
+                  [] sepsNil)
+          · exact cpartRdS_of_params _ _ 66 [] [] [] (by decide) (by decide) (by decide) (by decide) _ hentB
+              [(mxP7, Sev.null)] (List.cons_ne_nil _ _) rfl (by
+                intro q hq
+                simp only [List.mem_singleton] at hq
+                subst hq
+                refine ⟨rfl, ⟨55, [], rfl, by decide, by decide, by decide⟩, sepsNil, fun l sk d rest hd => ⟨sk, Or.inl rfl, ?_⟩⟩
+                exact attr_integer _ _ wAttrY rfl rfl (by decide) [55] (by decide) (by decide) (by decide) l sk [] sepsNil d rest hd)
+      · refine ⟨⟨hlexG, sepsNl, hscanG, _, hentA, rfl⟩, Or.inl ⟨hlexG, sepsNl, hscanG,
+          [(({ a := wAttrX, v := .one (.atom (.int (Grammar.denoteInteger [53]))), tok := [53], before := [], after := [] } : Param Nat), Sev.null)],
+          _, rfl, ?_, hentA, rfl, rfl, rfl⟩⟩
+        intro q hq
+        simp only [List.mem_singleton] at hq
+        subst hq
+        refine ⟨rfl, ⟨53, [], rfl, by decide, by decide, by decide⟩, sepsNil, fun l sk d rest hd => ⟨sk, Or.inl rfl, ?_⟩⟩
+        exact attr_integer _ false wAttrX rfl rfl (by decide) [53] (by decide) (by decide) (by decide) l sk [] sepsNil d rest hd)
+  refine ⟨res, hr, by rw [hrep]; decide, hc, by rw [hm]; decide, hex ?_⟩
+  exact ⟨(FileRecV.item Generated.rwCfg mxDict (.cxbad mvCRec [10] mvSv)).1, List.mem_cons_self .., by decide⟩
 
 /-! ### a stray `/` or `\` in front of a parameter is dropped without a word (finding
     `detect:stray-slash-or-backslash-between-parameters`; the model agrees with the code) -/
